@@ -1668,54 +1668,83 @@ func c01Timestamps(c *core.Ctx, r *core.Report) {
 	check(pkgWriter, "encodeTimestamps", true)
 	check(pkgSegread, "convertRawRecordsToTimestamps", false)
 
-	// the type byte is chosen by the matching bound of the span: `diff <= UINTk_MAX` -> TS_Typek
+	// the type byte is chosen by the matching bound of the span: `diff <= UINTk_MAX` -> TS_Typek.  The
+	// selection is recognised wherever it lives in the writer package (in encodeTimestamps or in a helper
+	// it calls) and in its if-, else-if-, early-return- and tagless-switch forms: a test `x <= K` / `x < K`
+	// against a constant whose guarded statement assigns or returns one of the TS_Type constants.
 	p := c.Pkg(pkgWriter)
 	info := p.TypesInfo
 	nSel := 0
+	selected := func(body []ast.Stmt) string {
+		if len(body) != 1 {
+			return ""
+		}
+		switch st := body[0].(type) {
+		case *ast.AssignStmt:
+			if len(st.Rhs) == 1 {
+				return isTsConst(info, st.Rhs[0])
+			}
+		case *ast.ReturnStmt:
+			if len(st.Results) == 1 {
+				return isTsConst(info, st.Results[0])
+			}
+		}
+		return ""
+	}
+	judge := func(fname string, cond ast.Expr, body []ast.Stmt, pos token.Pos) {
+		be, ok := ast.Unparen(cond).(*ast.BinaryExpr)
+		if !ok {
+			return
+		}
+		ts := selected(body)
+		if ts == "" {
+			return
+		}
+		nSel++
+		construct := "writer." + fname + ":selects-" + ts
+		bound, isK := info.Types[be.Y]
+		okSel := false
+		var got uint64
+		if isK && bound.Value != nil {
+			got, _ = constant.Uint64Val(constant.ToInt(bound.Value))
+			limit := maxVal[maxName[ts]]
+			switch be.Op {
+			case token.LEQ:
+				okSel = got <= limit
+			case token.LSS:
+				okSel = got <= limit+1
+			}
+		}
+		r.Check(okSel, "TSWIDTH", construct, c.Pos(pos), "the span bound fits the width", fmt.Sprintf("%s is selected for spans up to %d, which do not fit its width: the differences are truncated and timestamps come back wrong", ts, got))
+	}
 	for _, f := range p.Syntax {
+		if strings.HasSuffix(c.Pos(f.Pos()), "_test.go") || strings.Contains(c.Pos(f.Pos()), "_test.go:") {
+			continue
+		}
 		for _, d := range f.Decls {
 			fd, ok := d.(*ast.FuncDecl)
-			if !ok || fd.Body == nil || fd.Name.Name != "encodeTimestamps" {
+			if !ok || fd.Body == nil {
 				continue
 			}
 			ast.Inspect(fd.Body, func(n ast.Node) bool {
-				ifs, ok := n.(*ast.IfStmt)
-				if !ok {
-					return true
-				}
-				be, ok := ifs.Cond.(*ast.BinaryExpr)
-				if !ok || len(ifs.Body.List) != 1 {
-					return true
-				}
-				as, ok := ifs.Body.List[0].(*ast.AssignStmt)
-				if !ok || len(as.Rhs) != 1 {
-					return true
-				}
-				ts := isTsConst(info, as.Rhs[0])
-				if ts == "" {
-					return true
-				}
-				nSel++
-				construct := "writer.encodeTimestamps:selects-" + ts
-				bound, isK := info.Types[be.Y]
-				okSel := false
-				var got uint64
-				if isK && bound.Value != nil {
-					got, _ = constant.Uint64Val(constant.ToInt(bound.Value))
-					limit := maxVal[maxName[ts]]
-					switch be.Op {
-					case token.LEQ:
-						okSel = got <= limit
-					case token.LSS:
-						okSel = got <= limit+1
+				switch x := n.(type) {
+				case *ast.IfStmt:
+					judge(fd.Name.Name, x.Cond, x.Body.List, x.Pos())
+				case *ast.SwitchStmt:
+					if x.Tag != nil {
+						return true
+					}
+					for _, cl := range x.Body.List {
+						if cc, ok := cl.(*ast.CaseClause); ok && len(cc.List) == 1 {
+							judge(fd.Name.Name, cc.List[0], cc.Body, cc.Pos())
+						}
 					}
 				}
-				r.Check(okSel, "TSWIDTH", construct, c.Pos(ifs.Pos()), "the span bound fits the width", fmt.Sprintf("%s is selected for spans up to %d, which do not fit its width: the differences are truncated and timestamps come back wrong", ts, got))
 				return true
 			})
 		}
 	}
-	r.Floor("TSWIDTH", "width selections in encodeTimestamps", nSel, 3)
+	r.Floor("TSWIDTH", "timestamp width selections in the writer package", nSel, 3)
 }
 
 // ---------------------------------------------------------------------------------------------- length bound
